@@ -91,7 +91,7 @@ func runCase(c tcase, dist map[string]int) (lines []string, total int, inside bo
 			inside = len(ops) > 0 || inside
 		}
 		lines = append(lines, fmt.Sprintf("%s cmd %d %s -> %s : %s", c.id, n, cmd.String(), oc, opsString(ops)))
-		if w.r.frozen || (c.cut >= 0 && w.r.count >= c.cut) {
+		if w.r.frozen || (c.cut >= 0 && w.r.count >= c.cut) || w.dead {
 			break
 		}
 	}
@@ -123,6 +123,8 @@ func runCase(c tcase, dist map[string]int) (lines []string, total int, inside bo
 		ro := w.startNode(false)
 		lines = append(lines, fmt.Sprintf("%s restart -> %s : %s", c.id, ro, opsString(w.r.take())))
 		switch {
+		case ro != "ok" && shrunkBefore && durBefore < w.rec && w.ldb.ss.Dummy:
+			viol = append(viol, fmt.Sprintf("restart %s: the recorded snapshot %d of the on-disk state machine (OnDiskIndex %d) is ahead of what the state machine has durably (%d)", ro, w.rec, w.ldb.ss.OnDiskIndex, durBefore))
 		case ro != "ok" && shrunkBefore && durBefore < w.rec:
 			viol = append(viol, fmt.Sprintf("restart %s: recorded snapshot %d is shrunk while the state machine is durable only up to %d", ro, w.rec, durBefore))
 		case ro != "ok":
@@ -168,6 +170,9 @@ func scenarios() [][]command {
 		p("RECV 4 2; RECV 6 2; APPLY 6; APPLY 4; COMPACT 4"),
 		p("SAVE 2 1; SAVE 3 1; COMMIT 3; COMMIT 2; COMPACT 2"),
 		p("SAVE 2 1; COMMIT 2; SHRINK 2; SHRINK 2; SAVE 4 1; COMMIT 4; SHRINK 2"),
+		p("RECVX 5 2 1; APPLY 5"),
+		p("RECVX 5 1 2; APPLY 5; SAVE 7 1; COMMIT 7; COMPACT 5"),
+		p("SAVE 6 1; RECVX 6 3 3; COMMIT 6; APPLY 6; CRASH"),
 	}
 }
 
@@ -208,7 +213,11 @@ func randomSeq(r *vh.Rand, maxLen int) []command {
 			if i >= next {
 				next = i + 1
 			}
-			out = append(out, command{kind: "RECV", i: i, n: uint64(1 + r.Intn(4))})
+			if r.Chance(1, 3) {
+				out = append(out, command{kind: "RECVX", i: i, n: uint64(1 + r.Intn(3)), m: uint64(1 + r.Intn(3))})
+			} else {
+				out = append(out, command{kind: "RECV", i: i, n: uint64(1 + r.Intn(4))})
+			}
 			received = append(received, i)
 			final = append(final, i)
 			if r.Chance(2, 3) {
@@ -243,6 +252,10 @@ func diskScenarios() [][]command {
 		p("RECV 5 1; APPLY 5; RECOVER 5; RECV 8 2; APPLY 8; RECOVER 8; COMPACT 5"),
 		p("RECV 5 2; APPLY 5; CRASH; RECV 9 2; APPLY 9; RECOVER 9"),
 		p("RECV 5 2; APPLY 5; RECOVER 5; CRASH; RECV 7 1; APPLY 7; RECOVER 7; CRASH"),
+		p("ENTRIES 7; DSAVE"),
+		p("ENTRIES 4; DSAVE; ENTRIES 9; DSAVE; CRASH; ENTRIES 12; DSAVE"),
+		p("RECVX 5 2 2; APPLY 5; RECOVER 5; ENTRIES 8; DSAVE; CRASH"),
+		p("ENTRIES 3; DSAVE; RECV 9 2; APPLY 9; RECOVER 9; ENTRIES 11; DSAVE"),
 	}
 }
 
@@ -254,11 +267,22 @@ func randomDiskSeq(r *vh.Rand, maxLen int) []command {
 	var final []uint64
 	n := 3 + r.Intn(maxLen)
 	for len(out) < n {
-		switch r.Intn(8) {
+		switch r.Intn(11) {
+		case 8, 9, 10:
+			next += uint64(1 + r.Intn(3))
+			out = append(out, command{kind: "ENTRIES", i: next})
+			next++
+			if r.Chance(3, 4) {
+				out = append(out, command{kind: "DSAVE"})
+			}
 		case 0, 1, 2, 3:
 			i := next
 			next += uint64(1 + r.Intn(3))
-			out = append(out, command{kind: "RECV", i: i, n: uint64(1 + r.Intn(3))})
+			if r.Chance(1, 3) {
+				out = append(out, command{kind: "RECVX", i: i, n: uint64(1 + r.Intn(3)), m: uint64(1 + r.Intn(2))})
+			} else {
+				out = append(out, command{kind: "RECV", i: i, n: uint64(1 + r.Intn(3))})
+			}
 			final = append(final, i)
 			if r.Chance(5, 6) {
 				out = append(out, command{kind: "APPLY", i: i})
@@ -283,7 +307,7 @@ func randomDiskSeq(r *vh.Rand, maxLen int) []command {
 
 func gen(a vh.Args) {
 	r := vh.NewRand(a.Seed)
-	nseq, ndisk := 60, 16
+	nseq, ndisk := 60, 22
 	if a.Tier == "thorough" {
 		nseq, ndisk = 1500, 400
 	}
